@@ -1,4 +1,5 @@
 """C19 — operands are never modified and results share no state with them (GUARD monitors)."""
+import collections
 import copy
 
 import numpy as np
@@ -245,6 +246,51 @@ def symbolic_case(ctx, idx, rng):
             ctx.ok('chain-padded.independent', len(c0.qnums) == len(c0.oids) + 1, 'padded chain shares lists with the original', None)
 
 
+def edge_accumulation_case(ctx, idx, rng):
+    """History on the edge level: an accumulator edge (created EMPTY, or with a few operators) receives 2..5 other edges through OpGraphEdge.add. After EVERY
+    addition all earlier operands must still be bit-identical to their snapshots (an operand adopted by reference would be edited by a LATER call, in which it
+    is not even an argument), the accumulator must denote the running sum (zero coefficients may stay listed), and editing the accumulator's list afterwards
+    must not reach any operand."""
+    nids = [int(rng.integers(0, 5)), int(rng.integers(5, 9))]
+    pool = [int(x) for x in rng.choice(np.arange(-3, 12), size=int(rng.integers(1, 6)), replace=False)]
+    def rand_opics(kmax):
+        k = int(rng.integers(1, kmax + 1))
+        ids = [int(x) for x in rng.choice(pool, size=min(k, len(pool)), replace=False)]
+        return [(i, float(rng.choice([-2, -1, -.5, .5, 1, 2]))) for i in ids]
+    start = ('empty', 'empty', 'one', 'several')[idx % 4]
+    acc = ptn.OpGraphEdge(int(rng.integers(0, 50)), nids, [] if start == 'empty' else rand_opics(1 if start == 'one' else 4))
+    want = collections.defaultdict(float)
+    for i, c in acc.opics:
+        want[i] += c
+    n = int(rng.integers(2, 6))
+    ctx.case(('edge-accumulation', 'start-' + start, f'adds{n}', f'pool{len(pool)}'), sample={'start': list(acc.opics), 'adds': n})
+    operands, snaps = [], []
+    for step in range(n):
+        other = ptn.OpGraphEdge(int(rng.integers(50, 99)), list(nids), rand_opics(3))
+        operands.append(other)
+        snaps.append((other.eid, list(other.nids), [tuple(t) for t in other.opics]))
+        for i, c in other.opics:
+            want[i] += c
+        acc.add(other)
+        detail = {'step': step, 'accumulator': list(acc.opics), 'operands': snaps}
+        ok = all((o.eid, list(o.nids), [tuple(t) for t in o.opics]) == sn for o, sn in zip(operands, snaps))
+        if not ctx.ok('edge-add.earlier-operands-unchanged', ok, f'after addition {step + 1} an operand of this or of an EARLIER addition has changed', detail):
+            return
+        got = collections.defaultdict(float)
+        for i, c in acc.opics:
+            got[i] += c
+        ctx.ok('edge-add.running-sum', {k: v for k, v in got.items() if v != 0} == {k: v for k, v in want.items() if v != 0}
+               and len({i for i, _ in acc.opics}) == len(acc.opics) and list(acc.opics) == sorted(acc.opics),
+               f'accumulator {list(acc.opics)} != running sum {dict(want)} (unique ids, sorted)', detail)
+        ctx.ok('edge-add.no-shared-list', all(acc.opics is not o.opics for o in operands), 'the accumulator shares its operator list object with an operand', detail)
+    # mutate-result probe
+    acc.opics.append((99, 1.0))
+    if acc.opics:
+        acc.opics[0] = (acc.opics[0][0], 123.0)
+    ok = all((o.eid, list(o.nids), [tuple(t) for t in o.opics]) == sn for o, sn in zip(operands, snaps))
+    ctx.ok('edge-add.result-edit-does-not-reach-operands', ok, 'editing the accumulator changed an operand', {'operands': snaps})
+
+
 def inplace_case(ctx, idx, rng):
     """In-place algorithms modify only the documented target."""
     name, L, p, H = gen.pick_model(rng, maxdim=256, Lmin=2, Lmax=5)
@@ -339,6 +385,7 @@ SPEC = {
         Workload('arithmetic', arithmetic_case, quick=800, thorough=120000),
         Workload('decomposition', decomposition_case, quick=600, thorough=80000),
         Workload('symbolic', symbolic_case, quick=500, thorough=48000),
+        Workload('edge-accumulation', edge_accumulation_case, quick=400, thorough=40000),
         Workload('inplace', inplace_case, quick=320, thorough=40000),
         Workload('suite-soak', soak_case, quick=0, thorough=1, shardable=False),
     ],
